@@ -216,7 +216,7 @@ class C17(Prop):
                 'cap': cap, 'qs': [list(q) for q in qs], 'kind': kind}
 
     def gen(self, tier, rng):
-        n = {"quick": 1500, "thorough": 30000, "search": 20000}[tier]
+        n = {"quick": 1500, "thorough": 20000, "search": 12000}[tier]
         for _ in range(n):
             yield self.random_case(rng, long=(tier != 'quick'))
 
@@ -486,28 +486,48 @@ class C17(Prop):
             pred = dict(zip(m_pts, [None] + m_pts[:-1]))
             canon = lambda tp: I.point_parse(str(tp))  # noqa: E731
             nxo, pvo = [], []
-            work, seen = [], set()
+            seen = set()
+            hi2 = [hi]
+
+            def chain_from(rm, r):
+                """entries for the off-iteration points reached from a deviating step, far enough for every query:
+                up to MARGIN non-excluded chain points beyond the largest query"""
+                beyond = steps = 0
+                while rm is not None and rm not in memb and rm not in seen:
+                    seen.add(rm)
+                    hi2[0] = max(hi2[0], rm)
+                    if rm > qmax and not excluded(rm):
+                        beyond += 1
+                        if beyond >= MARGIN and rm > hi:
+                            return True
+                    r2 = rec.get_next(canon(r))
+                    if r2 is None:
+                        return True
+                    rm2 = self.minutes(r2)
+                    nxo.append([rm, rm2])
+                    steps += 1
+                    if steps > 400:
+                        return False
+                    rm, r = rm2, r2
+                return True
+
             for m, tp in zip(m_pts, pts):
                 r = rec.get_next(canon(tp))
                 rm = None if r is None else self.minutes(r)
-                if rm is not None and rm > hi:
-                    rm = None
+                if rm is not None and rm > hi and succ[m] is None:
+                    rm = None           # the iteration goes on beyond the window (open recurrence)
                 if rm != succ[m]:
                     nxo.append([m, rm])
-                    if rm is not None and rm not in memb and rm not in seen:
-                        seen.add(rm)
-                        work.append((rm, r))
-            while work:
-                m, tp = work.pop()
-                r = rec.get_next(canon(tp))
-                rm = None if r is None else self.minutes(r)
-                if rm is not None and rm <= hi:
-                    nxo.append([m, rm])
-                    if rm not in memb and rm not in seen:
-                        seen.add(rm)
-                        work.append((rm, r))
-                if len(nxo) > 3 * LIMIT:
-                    return {'build': 'skip', 'why': 'off-iteration closure too large'}
+                    try:
+                        if not chain_from(rm, r):
+                            return {'build': 'skip', 'why': 'off-iteration closure too large'}
+                    except OverflowError:
+                        return {'build': 'skip', 'why': 'exclusion window too large'}
+            hi = hi2[0]
+            try:
+                advance(hi)
+            except OverflowError:
+                return {'build': 'skip', 'why': 'exclusion window too large'}
             pseen = set()
 
             def prev_closure(rm, r):
